@@ -233,6 +233,10 @@ open KsiVerif KsiVerif.Template
 /-- the tables generated from the current source are the reference schema -/
 theorem tables_are_the_reference_schema : Gen.templates = SchemaRef.templates := by decide
 
+/-- the hash-algorithm table reported by the current library is the registry: same ids, same digest lengths -/
+theorem hash_algorithms_are_the_registry :
+    Gen.hashAlgs.map (fun a => (a.id, a.len)) = SchemaRef.hashLens ∧ ∀ a ∈ Gen.hashAlgs, a.name ≠ "" := by decide
+
 /-- what the engine model leaves out does not occur in any table: no row is flagged MORE_DEFS
 (several rows for one tag), no table is empty, no row has tag 0 (the table terminator) -/
 theorem tables_within_model :
